@@ -27,11 +27,18 @@
     ends it, and an enumerator without `=` has no value — whatever its neighbours hold.
   Which terminator set each position uses and values outside `TopLevel` (the `<` heuristic):
   oracle `positions` and correspondence `parse[values]` (named; not proof).
+  * `C14_variable_initializer` (`Theorems/VarInit.lean`, `FieldForm.lean`, `TopLevel.lean`): a position end to
+    end through the parse loop and the recursive core — in `T ptr-ops x = value ;` the one
+    `on_variable` carries as value EXACTLY the tokens written between the `=` and the `;`
+    (`valueOf vals`: same types and texts, same order, nothing dropped, duplicated or taken from
+    the surrounding declaration), for every value of top-level shape of any length.
 -/
 import CxxModel.Theorems.Stream
 import CxxModel.Theorems.MethodEnd
 import CxxModel.Theorems.EnumList
 import CxxModel.Tables
+import CxxModel.Theorems.TopLevel
+import CxxModel.GenCfg
 namespace Cxx
 
 theorem C14_balanced_contiguous (env : Env) (F : Nat) (init : List CTok) (w w' : World) (res : List CTok)
@@ -105,5 +112,37 @@ theorem C14_enumerator_values (env : Env) (hp : RulesProgress env.cfg = true) (F
       vs.map Enumerator.nv = (pre ++ [last]).map EItem.nv := by
   obtain ⟨w', vs, _, h, hnv, _⟩ := enumList_last env hp F pre last more w bEnd hall hlast hy hF
   exact ⟨w', vs, h, hnv⟩
+
+section
+open P
+
+theorem C14_variable_initializer (env : Env) (hc : env.cfg = genLexCfg) (G D : Nat) (w : World)
+    (first : Tok) (pairs : List (Tok × Tok)) (ops : List Tok) (x eq : Tok) (vals : List Tok) (semi : Tok) (d1 : DType) (b1 b0 bmid bx bq bv b' : Buf)
+    (blk : Block) (rest : List Block) (hstack : w.stack = blk :: rest) (hk : blk.hdr.kind ≠ .cls)
+    (hmu : w.muted = false) (hfa : ¬ env.faultAt = some w.delivered)
+    (htok : tokenEofOk env.cfg w.buf = .ok (some first, b1))
+    (hty : first.type = "NAME") (htv : identVal first.value = true)
+    (hall : ∀ p ∈ pairs, p.1.type = "DBL_COLON" ∧ p.2.type = "NAME" ∧ plainVal p.2.value = true)
+    (hy0 : Yields env.cfg b1 (pairs.flatMap (fun p => [p.1, p.2])) b0)
+    (hops : opsHeadOk ops = true) (hopsv : ∀ o ∈ ops, o.value ≠ "auto")
+    (hy : Yields env.cfg b0 ops bmid)
+    (ha : applyPtrOps (.type (.mk (.name first.value none :: pairs.map (fun p => .name p.2.value none)) none false) false false)
+      (ops.map (·.type)) = some d1)
+    (htx : tokenEofOk env.cfg bmid = .ok (some x, bx)) (hx : x.type = "NAME") (hxv : identVal x.value = true)
+    (hteq : tokenEofOk env.cfg bx = .ok (some eq, bq)) (heq : eq.type = "=")
+    (hyv : Yields env.cfg bq vals bv) (htl : TopLevel [",", ";"] (vals.map (·.type)))
+    (hsemi : tokenEofOk env.cfg bv = .ok (some semi, b')) (hs : semi.type = ";")
+    (hF : pairs.length + ops.length + 2 ≤ G + 1) (hFv : vals.length + 1 ≤ G) :
+    ∃ (d : Option String) (bD : Buf) (w7 : World) (ct : CTok) (dox : Option String) (ev : Event),
+      getDoxygen env.cfg env.mcRe w.buf = .ok (d, bD) ∧
+      interp env (mainBody (G + 1) (core (G + 1) (D + 1 + 1)) none) w = (w7, .ok (.inl none)) ∧
+      SigEq b' w7.buf ∧ ct.value = first.value ∧ w7.stack = { blk with loc := .tok ct.sidx } :: rest ∧
+      w7.events = w.events ++ [ev] ∧ ev.kind = .item (.variable (initVariable x d1 vals dox)) ∧
+      ev.stateId = blk.id ∧ ev.parentId = rest.head?.map (·.id) ∧ (∀ dd, d = some dd → dox = some dd) ∧
+      w7.delivered = w.delivered + 1 ∧ w7.anon = w.anon ∧ w7.muted = false ∧ w7.nextId = w.nextId :=
+  toplevel_variable_init env (by rw [hc]; exact gen_rules_progress) G D w first pairs ops x eq vals semi d1 b1 b0 bmid bx bq bv b' blk rest hstack hk hmu hfa
+    htok hty htv hall hy0 hops hopsv hy ha htx hx hxv hteq heq hyv htl hsemi hs hF hFv
+
+end
 
 end Cxx
